@@ -54,4 +54,60 @@ CHECKS = {
             "several independent damaged spots in one image: only 'no panic' is claimed (CRC32 can be defeated by coordinated changes)",
         ],
     },
+    "C11": {
+        "level": "exploration",
+        "tests": [
+            {"pkg": "kvx", "run": "^TestC11_Laws$", "quick": 200000, "thorough": 6000000},
+            {"pkg": "kvx", "run": "^TestC11_Comparer$", "quick": 200000, "thorough": 6000000},
+            {"pkg": "kvx", "run": "^TestC11_Engine$", "quick": 400, "thorough": 8000},
+        ],
+        "floors": {"ge3_blocks": 0.0005},
+        "rule": "(a) triples of byte strings (adversarial alphabet {-./01ab~,0x00,0xff} or arbitrary bytes, length 0..12, related by "
+                "shared prefixes): antisymmetry, cmp==0 <=> equal bytes, transitivity, agreement with an independent "
+                "implementation of the documented slash order; (b) Pebble's Comparer contract on kv.OxiaSlashSpanComparer "
+                "(a<=Separator(a,b)<b, a<=Successor(a), AbbreviatedKey monotone, ImmediateSuccessor); (c) real Pebble KV with "
+                "40..400 keys x 2..16 KiB values (3..40 storage blocks), 1..5 batches each followed by a flush, deletes in "
+                "later batches, optional reopen: exact get of every live key, full iteration, get with all five "
+                "comparison types for present/absent probes, forward and reverse range scans against a sorted reference. "
+                "Non-trivial: (a,b) first difference at '/', '.', '0'/'-' ; (c) >=3 blocks and an adjacent key pair whose "
+                "byte-wise separator differs from both keys. distinct = distinct written-out case.",
+        "assumptions": ["Pebble's own compaction schedule is whatever it chooses after each flush (not driven)"],
+    },
+    "C12": {
+        "level": "exploration",
+        "tests": [
+            {"pkg": "kvx", "run": "^TestC12_Model$", "quick": 2400, "thorough": 60000},
+        ],
+        "floors": {"multi_op_one_key": 0.2, "range_over_100": 0.05},
+        "rule": "rapid state machine over a real kv.DB driven through the exported callback chain used by leader and follower "
+                "(server.WrapperUpdateOperationCallback): requests mixing 0-4 puts, 0-3 deletes, 0-2 delete-ranges on a 3-10 "
+                "key pool (same key several times per request, expected versions from {nil,-1,current,stale,never assigned}, "
+                "sessions alive/dead, index declarations), bulk phases of 90-140 keys followed by range deletes of 60/99/100/101/120 "
+                "keys, session create/close requests, graceful reopen; every response checked by the sequential model "
+                "(statuses, strictly increasing version ids, modification counts, timestamps), exact gets of all pool keys "
+                "after each step, drawn list/range-scan/comparison-get probes, full ordered dump at the end and after reopen. "
+                "Non-trivial: a request with >=2 operations on one key, or a conditional op with a stale version, or a range "
+                "delete over >100 keys. distinct = distinct written-out history.",
+        "assumptions": [
+            "range bounds are non-empty, start<=end, and cannot span the reserved '__oxia/' records (both slash-free or sharing a first segment)",
+            "reads whose nearest stored key is a reserved '__oxia/' record are not asserted (the server does not filter them)",
+            "when both the expected version and the session check fail either status is accepted",
+        ],
+    },
+    "C13": {
+        "level": "exploration",
+        "tests": [
+            {"pkg": "kvx", "run": "^TestC13_Structured$", "quick": 6000, "thorough": 150000},
+        ],
+        "floors": {"outside_client_library": 0.3},
+        "rule": "sequences of 1-12 WriteRequests a client can put on the wire (valid UTF-8, keys outside '__oxia/'), including ones "
+                "the project's client never builds: sequence deltas with/without partition key, with expected version, delta 0 / "
+                "2^64-1, unknown/closed/arbitrary session ids, index names/keys that are empty, contain '/' or \x01 or are 200 "
+                "bytes long, empty keys and values, very long keys, up to 50 puts, delete-ranges with empty/equal/inverted "
+                "bounds; applied to two real databases: ProcessWrite must return no error and one status per operation, both "
+                "replicas answer identically, the database reopens and both dumps are identical (notification records "
+                "compared decoded). Non-trivial: the history contains >=1 operation outside what oxia/ builds. Listed known "
+                "findings are re-confirmed by scripted inputs and excluded by construction (counted).",
+        "assumptions": ["keys inside the reserved prefix are outside the domain", "delete-range bounds are slash-free here (ranges across reserved records belong to no listed property)"],
+    },
 }
